@@ -17,6 +17,8 @@ limitations under the License.
 package hooks
 
 import (
+	"fmt"
+
 	"metacontroller/pkg/apis/metacontroller/v1alpha1"
 	"metacontroller/pkg/controller/common"
 	"metacontroller/pkg/controller/common/api"
@@ -58,5 +60,10 @@ func (h *hookExecutorImpl) IsEnabled() bool {
 }
 
 func (h *hookExecutorImpl) Call(request api.WebhookRequest, response interface{}) error {
+	if h.webhookExecutor == nil {
+		// The hook is not configured (IsEnabled() is false); report it instead of
+		// dereferencing the missing executor.
+		return fmt.Errorf("hook is not defined")
+	}
 	return h.webhookExecutor.Call(request, response)
 }
